@@ -205,6 +205,67 @@ def model_input(case):
     return {"op": "C02.build", "ops": model_ops(case["prog"], stmts)}
 
 
+def _strings(j, acc):
+    if isinstance(j, str):
+        acc.add(j)
+    elif isinstance(j, list):
+        for x in j:
+            _strings(x, acc)
+    elif isinstance(j, dict):
+        for x in j.values():
+            _strings(x, acc)
+
+
+def canon_handed_out(out, known):
+    """the output with every name the BUILDER handed out (one that occurs nowhere in the builder calls) replaced by
+    #v0, #v1, ... in order of first occurrence: how the builder spells and numbers the names it hands out is not part
+    of the property, only that they are new - which is what 'occurs nowhere in the calls' says - and distinct"""
+    vmap = {}
+
+    def v(n):
+        return n if n in known else vmap.setdefault(n, f"#v{len(vmap)}")
+
+    def walk(j):
+        if isinstance(j, list):
+            if len(j) == 2 and j[0] == "v" and isinstance(j[1], str):
+                return ["v", v(j[1])]
+            return [walk(x) for x in j]
+        return j
+    stmts = []
+    for st in out["stmts"]:
+        k = list(st["kind"])
+        cond = walk(st["cond"])
+        if k[0] == "assign":
+            k[4] = [[v(l[0]), walk(l[1]), walk(l[2])] for l in k[4]]
+            k[1], k[2], k[3] = v(k[1]), walk(k[2]), walk(k[3])
+        elif k[0] == "call":
+            k[3], k[4] = walk(k[3]), [[kk, walk(x)] for kk, x in k[4]]
+            k[1] = [v(x) for x in k[1]]
+        else:
+            k = [k[0]] + [walk(x) for x in k[1:]]
+        stmts.append(dict(st, cond=cond, kind=k))
+    # the names returned by fresh_var_name may legitimately be spelled like variables the program uses LATER, so they
+    # cannot be told from user names by spelling: only which of them coincide is compared (that they are new when handed
+    # out is the oracle's business on the real builder, and a theorem of the model)
+    fr = list(out.get("fresh") or [])
+    return dict(out, stmts=stmts, fresh=[fr.index(n) for n in fr])
+
+
+def normalise_pair(case, a, b):
+    if isinstance(a, dict) and isinstance(b, dict) and "stmts" in a and "stmts" in b and a != b:
+        known = set()
+        # (the PREFIX asked of fresh_var_name is not a name the program uses)
+        _strings([op for op in case["prog"] if op[0] != "fresh"], known)
+        try:
+            ca, cb = canon_handed_out(a, known), canon_handed_out(b, known)
+        except (KeyError, IndexError, TypeError, ValueError):
+            return a, b
+        if ca == cb:
+            ctx.count("tie:handed-out-names-spelled-or-numbered-differently")
+            return ca, cb
+    return a, b
+
+
 # ---- oracle: all schedules of the REAL graph, executed by the REAL interpreter methods
 
 def linear_extensions(deps, limit):
